@@ -82,6 +82,7 @@ pub fn gen_history<S: Sut>(seed: u64, cfg: Cfg, sweep: Option<Sweep>) -> Outcome
     w.quiet = true;
     let mut script: Vec<Act> = vec![];
     let policy = if cfg.policy == 255 { rng.below(8) as u8 } else { cfg.policy };
+    HOT.with(|h| h.set(cfg.policy == 255 && rng.chance(2, 5)));
     let n = cfg.nrep;
     // actor identities: usually replica i edits as actor i; every third history uses spread-out identities whose
     // order differs from the replica order (e.g. 250, 3, 7) so that nothing depends on small, ordered actor ids
@@ -100,7 +101,45 @@ pub fn gen_history<S: Sut>(seed: u64, cfg: Cfg, sweep: Option<Sweep>) -> Outcome
             }
         };
     }
-    for stepno in 0..cfg.nsteps {
+    if cfg.policy == 254 {
+        // ---- conflict template: a few writers on one hot path, a nested remover and an outer remover that
+        // have each seen a random part of the history, optionally a late writer; 3-7 ops by up to n actors.
+        // The observer sweep below then enumerates *all* per-actor-ordered delivery orders of this op set.
+        HOT.with(|h| h.set(true));
+        let mut roles: Vec<u8> = vec![0; 1 + rng.below(3)];
+        roles.push(1);
+        roles.push(2);
+        if rng.chance(1, 2) {
+            roles.push(if rng.chance(1, 2) { 0 } else { 1 });
+        }
+        if rng.chance(1, 3) {
+            roles.push(rng.below(3) as u8);
+        }
+        // order of the removers and late writers is shuffled, the first writer stays first
+        for i in (2..roles.len()).rev() {
+            let j = 1 + rng.below(i);
+            roles.swap(i, j);
+        }
+        for role in roles {
+            let r = rng.below(n);
+            // what this author has seen: each earlier op with probability 1/2, closed under causality
+            let mut want: Bits = 0;
+            for i in 0..w.ops.len() {
+                if rng.chance(1, 2) {
+                    want |= 1 << i | w.deps[i];
+                }
+            }
+            for i in 0..w.ops.len() {
+                if want >> i & 1 == 1 && w.know[r] >> i & 1 == 0 {
+                    go!(Act::Deliver { r, author: w.author[i], seq: w.seqs[i] });
+                }
+            }
+            if let Some(cmd) = S::template_cmd(role, &mut rng) {
+                go!(Act::Gen { r, actor: actor_ids[r], cmd, old: rng.below(12) });
+            }
+        }
+    }
+    for stepno in 0..(if cfg.policy == 254 { 0 } else { cfg.nsteps }) {
         let r = rng.below(n);
         let frac = stepno * 10 / cfg.nsteps.max(1);
         let mut choice = rng.below(10);
@@ -370,9 +409,6 @@ impl CampStats {
     }
 }
 
-fn noncausal_run<S: Sut>(w: &World<S>) -> bool {
-    w.ever_noncausal
-}
 
 fn has_merge<S: Sut>(w: &World<S>, cfg: &Cfg) -> bool {
     w.merged || cfg.mon & (mon::STALE | mon::LAWS | mon::HYBRID) != 0
@@ -380,7 +416,7 @@ fn has_merge<S: Sut>(w: &World<S>, cfg: &Cfg) -> bool {
 
 pub fn taints_of<S: Sut>(w: &World<S>, cfg: &Cfg, k: Bits) -> BTreeSet<&'static str> {
     let facts = if k != 0 { w.facts_of(k) } else { w.facts.clone() };
-    taint::taints(&facts, has_merge(w, cfg), noncausal_run(w))
+    taint::taints(&facts, &w.facts, has_merge(w, cfg), w.t7_fired)
 }
 
 pub fn schedule_hash(script: &[Act]) -> u64 {
